@@ -97,9 +97,20 @@ def run(tier, replay):
     # every cascade path of every daughter level (steered): the rare branches close the budget as well
     jobs += [l_ for (l_, m_) in c02.cascade_jobs(S, rng, 2 if thorough else 1)]
     nsh = 8
+    shards = [jobs[i::nsh] for i in range(nsh)]
+    # the three nuclides of the quadruple-beta mode back to back in ONE process, in both orders: the four electrons carry the
+    # energy release of THIS nuclide (and the same for the 2nuKb+ / 2K modes of three capture nuclides)
+    seqjobs = []
+    for k_, (iso_, il_, m_) in enumerate([("Nd150", 0, 20), ("Zr96", 0, 20), ("Xe136", 0, 20), ("Nd150", 0, 20), ("Xe136", 0, 20), ("Zr96", 0, 20),
+                                         ("Cd106", 0, 12), ("Ru96", 0, 12), ("Kr78", 0, 12), ("Cd106", 0, 12), ("Cd106", 0, 9), ("Ru96", 0, 9), ("Cd106", 0, 9),
+                                         ("Mo100", 0, 1), ("Se82", 0, 1), ("Mo100", 0, 1)]):
+        if any(e_["name"] == iso_ for e_ in tab):
+            seqjobs.append(c02.dline("%s.%d.%d.q%d" % (iso_, il_, m_, k_), iso_, il_, m_, None, 9000 + k_, 3))
+    shards.append(seqjobs)
+    nsh += 1
 
     def shard(i):
-        rc, out = vlib.sh([exe, "--ev-trace", os.path.join(wd, "ev%d.ndjson" % i)], input="\n".join(jobs[i::nsh]) + "\n", timeout=2400,
+        rc, out = vlib.sh([exe, "--ev-trace", os.path.join(wd, "ev%d.ndjson" % i)], input="\n".join(shards[i]) + "\n", timeout=2400,
                           env=vlib.harness_env("plain"))
         return rc, out
     with cf.ThreadPoolExecutor(max_workers=nsh) as ex:
